@@ -107,6 +107,13 @@ def exact(t, src):
               forall(0, L, lambda k: txt.at(k) == src.at(p + k)))
 
 
+def exact_full(t, src):
+    """the token text is the source slice at its position (any length)"""
+    txt = lift_str(t.fields['txt'])
+    p = zint(t.fields['pos'])
+    return forall(0, txt.ln, lambda k: txt.at(k) == src.at(p + k))
+
+
 def big_special_keys():
     V = special_table()
     return sorted(k for k, v in V.items() if len(v) > 1)
